@@ -1,8 +1,109 @@
-(* C17 — property theorems only: each closed by [exact lemma], followed by Print Assumptions. *)
+(* C17 — property theorems only: each closed by [exact lemma], followed by Print Assumptions.
+   [sort ds] is the model of popDecls + graph.Sort on the declaration list ds (Model.v); [resolve ds] are the same
+   declarations with Deps restricted to the names declared in ds (DeclMap.RemoveUnresolvableDeps).
+   Theorems quantify over ALL declaration lists; the order theorems that need pairwise distinct names say so. *)
 From Coq Require Import List NArith ZArith Bool Permutation.
-From Verif Require Import Common.GoStr C17.Model C17.Proof.
+From Verif Require Import Common.GoStr C17.Model C17.Proof C17.Spec C17.Order C17.Phase C17.Fuel C17.ScopeModel C17.ScopeProof.
 Import ListNotations.
 
-Theorem C17_sort_by_pos_perm : forall l, Permutation (sort_by_pos l) l.
-Proof. exact sort_by_pos_perm. Qed.
-Print Assumptions C17_sort_by_pos_perm.
+(* every declaration is emitted exactly once; the only additional entries are TypeFwd copies of type declarations *)
+Theorem C17_each_once : forall ds out, Forall (fun d => dkind d <> KTypeFwd) ds -> sort ds = Ok out ->
+  Permutation (nofwd out) (resolve ds) /\
+  Forall (fun e => is_fwd e = true -> fwd_of_type (resolve ds) e) out.
+Proof. exact each_once. Qed.
+Print Assumptions C17_each_once.
+
+(* every declaration follows all declarations whose name it depends on; only a type declaration may instead be
+   preceded by a forward declaration (TypeFwd) of the name it depends on *)
+Theorem C17_topological : forall ds out, Forall (fun d => dkind d <> KTypeFwd) ds -> sort ds = Ok out ->
+  forall l1 d l2, out = l1 ++ d :: l2 -> is_fwd d = false -> forall n, In n (ddeps d) ->
+    emitted l1 n \/
+    ((exists t, In t (resolve ds) /\ dname t = dname d /\ is_type t = true) /\ fwd_emitted l1 n).
+Proof. exact topological. Qed.
+Print Assumptions C17_topological.
+
+(* the result depends only on the set of declarations, not on the order in which they are inserted in the maps *)
+Theorem C17_deterministic : forall ds ds', NoDup (names_of ds) -> Permutation ds ds' -> sort ds = sort ds'.
+Proof. exact deterministic. Qed.
+Print Assumptions C17_deterministic.
+
+(* the model's fuel (visit: one frame per node; Sort loop: one node or at least one edge per iteration) never runs out *)
+Theorem C17_fuel_sufficient : forall ds, sort ds <> OutOfFuel.
+Proof. exact sort_total. Qed.
+Print Assumptions C17_fuel_sufficient.
+
+(* a dependency cycle none of whose members is a type declaration is reported as a declaration loop
+   (DeclLoop = circularDependencyError) *)
+Theorem C17_cycle_without_type_is_error : forall ds c, Forall (fun d => dkind d <> KTypeFwd) ds ->
+  is_cycle (resolve ds) c -> no_type_named (resolve ds) c -> sort ds = DeclLoop.
+Proof. exact cycle_is_error. Qed.
+Print Assumptions C17_cycle_without_type_is_error.
+
+(* among the declarations that are ready (all dependencies already emitted) the sorter always takes the one with the
+   least position; stated for declaration sets with pairwise distinct names and positions whose "earliest ready
+   declaration" order exists (no dependency cycle: go_init_order, Spec.v, does not get stuck) *)
+Theorem C17_earliest_ready : forall ds out, NoDup (names_of ds) -> NoDup (map dpos ds) ->
+  go_init_order ds <> None -> sort ds = Ok out ->
+  forall l1 d l2, out = l1 ++ d :: l2 -> forall d', In d' l2 -> ready l1 d' = true -> (dpos d <= dpos d')%N.
+Proof. exact earliest_ready. Qed.
+Print Assumptions C17_earliest_ready.
+
+(* unconstrained declarations keep their source order *)
+Theorem C17_stable : forall ds out, NoDup (names_of ds) -> NoDup (map dpos ds) ->
+  go_init_order ds <> None -> sort ds = Ok out ->
+  forall l1 d l2 d', out = l1 ++ d :: l2 -> In d' l2 -> ddeps d' = [] -> (dpos d <= dpos d')%N.
+Proof. exact stable. Qed.
+Print Assumptions C17_stable.
+
+(* RemoveNodesNoDeps: the walk over the map returns the arg-min of Pos over the nodes without edges, whatever the order
+   of the walk ([Good] is a property of the node SET; single-declaration nodes = pairwise distinct names) *)
+Theorem C17_remove_nodes_no_deps_is_argmin : forall g, singles g -> Good g (fold_left rnnd_step g None).
+Proof. exact rnnd_good. Qed.
+Print Assumptions C17_remove_nodes_no_deps_is_argmin.
+
+(* Sorter.Some (the step of Sorter.All): every call consumes a prefix of the queue = a quiet part (nil nodes, empty
+   clauses) followed by a run of items of ONE class, leaves the rest of the queue untouched, and returns exactly what
+   that run emits: package clauses / imports / statements in Pos order, declarations dependency-sorted.  Hence nothing
+   is ever moved across the surrounding runs. *)
+Theorem C17_phase_split : forall q l rest, no_fwd_items q -> some q = (Ok l, rest) -> some_result q l rest.
+Proof. exact some_spec. Qed.
+Print Assumptions C17_phase_split.
+
+(* ---- extraction stage (scope.go), Scope.isLocal only: the scope walk as written (ScopeModel.v) refutes "a reference
+   shadowed by a local does not count / a free reference does count" (finding #2), with both witnesses:
+   chain [[]; [x]; []]  : x declared in the enclosing (function) scope is not seen from the block inside it;
+   chain [[]; []; [b]]  : top-level b, already in the top-level map, is reported as local => dependency dropped.
+   (Finding #1, parameters declared in a throw-away scope, lives in Scope.Func / AstExpr, which are not modelled.) *)
+Theorem C17_shadowing_refuted :
+  (is_local [[]; [nx]; []] nx = false /\ is_local_spec [[]; [nx]; []] nx = true) /\
+  (is_local [[]; []; [nb]] nb = true /\ is_local_spec [[]; []; [nb]] nb = false).
+Proof. exact shadowing_refuted. Qed.
+Print Assumptions C17_shadowing_refuted.
+
+(* what is true of the walk: exact at depth <= 1; in general it inspects the innermost scope and every scope from the
+   third one on, the top-level one included *)
+Theorem C17_deps_are_free_names_partial : forall s0 s1 rest top n,
+  (is_local [s0; top] n = is_local_spec [s0; top] n /\ is_local [top] n = is_local_spec [top] n) /\
+  is_local (s0 :: s1 :: rest) n = str_in n s0 || existsb (str_in n) rest.
+Proof. exact is_local_partial. Qed.
+Print Assumptions C17_deps_are_free_names_partial.
+
+(* ---- non-vacuity: the five mutually recursive structs of DESIGN 7 #15 and a var cycle ---- *)
+Definition A := [65%N]. Definition B := [66%N]. Definition C := [67%N]. Definition D := [68%N]. Definition E := [69%N].
+Definition ex5 := [mkDecl KType A 6 [B;C]; mkDecl KType B 33 [A;C]; mkDecl KType C 60 [A;B];
+                   mkDecl KType D 87 [A;E]; mkDecl KType E 113 [C;D]].
+Example ex5_sorts : exists out, sort ex5 = Ok out /\ map (fun d => (dkind d, dname d)) out =
+  [(KTypeFwd, C); (KTypeFwd, A); (KTypeFwd, E); (KType, B); (KType, A); (KType, C); (KType, D); (KType, E)].
+Proof. eexists. split; vm_compute; reflexivity. Qed.
+Example ex_var_cycle : sort [mkDecl KVar A 1 [B]; mkDecl KVar B 2 [A]] = DeclLoop
+  /\ is_cycle (resolve [mkDecl KVar A 1 [B]; mkDecl KVar B 2 [A]]) [A; B].
+Proof.
+  split; [vm_compute; reflexivity|]. split; [discriminate|]. intros i Hi.
+  destruct i as [|[|i]]; [| |simpl in Hi; inversion Hi as [|? H]; inversion H as [|? H']; inversion H'].
+  - eexists. split; [left; reflexivity|]. split; [reflexivity|]. vm_compute. left. reflexivity.
+  - eexists. split; [right; left; reflexivity|]. split; [reflexivity|]. vm_compute. left. reflexivity.
+Qed.
+Example ex_acyclic : go_init_order [mkDecl KVar A 1 [B]; mkDecl KFunc B 2 [C]; mkDecl KConst C 3 []] <> None
+  /\ sort [mkDecl KVar A 1 [B]; mkDecl KFunc B 2 [C]; mkDecl KConst C 3 []]
+     = Ok [mkDecl KConst C 3 []; mkDecl KFunc B 2 [C]; mkDecl KVar A 1 [B]].
+Proof. split; [vm_compute; discriminate|vm_compute; reflexivity]. Qed.
